@@ -34,7 +34,10 @@ HostsDb(name) ==
          [] name = "alias2.test" -> {[m |-> -1005, ttl |-> 0, f |-> 4]}
          [] name = "long6.test" -> {[m |-> -1007, ttl |-> 0, f |-> 6]}
          [] name = "short6.test" -> {[m |-> -1006, ttl |-> 0, f |-> 6]}
+         [] name = "v4only.localhost" -> {[m |-> -1006, ttl |-> 0, f |-> 4]}
+         [] name = "v6only.localhost" -> {[m |-> -1008, ttl |-> 0, f |-> 6]}
          [] OTHER -> {}
+IsLocalName(n) == n \in {"localhost", "v4only.localhost", "v6only.localhost", "other.localhost"}
 Loopback == {[m |-> -1001, ttl |-> 0, f |-> 4], [m |-> -1001, ttl |-> 0, f |-> 6]}
 FamOk(fam, r) == fam = 0 \/ r.f = fam
 
@@ -45,7 +48,12 @@ Expected(r) ==
       hosts == {x \in HostsDb(r.name) : FamOk(r.family, x)}
       usesfile == lcfg.usefile = 1
   IN IF r.lit # 0 THEN {{[m |-> r.lit, ttl |-> 0, f |-> IF r.family = 0 THEN 4 ELSE r.family]}, {[m |-> r.lit, ttl |-> 0, f |-> 6]}, {[m |-> r.lit, ttl |-> 0, f |-> 4]}}
-     ELSE IF r.name = "localhost" THEN {{x \in Loopback : FamOk(r.family, x)}}
+     ELSE IF IsLocalName(r.name) THEN
+          \* RFC 6761: localhost names are never sent to DNS; what the hosts database lists is used, and the loopback
+          \* address is supplied for every requested family the database has nothing for
+          LET h == IF usesfile THEN hosts ELSE {}
+              fams == {x.f : x \in h}
+          IN {h \cup {x \in Loopback : FamOk(r.family, x) /\ x.f \notin fams}}
      ELSE IF dns # {} THEN {dns}
      ELSE IF usesfile THEN {hosts} ELSE {}
 
